@@ -306,6 +306,7 @@ func outcomeOf(g *graph.WeightedAuthorizationModelGraph, err error, cn map[strin
 }
 
 type wgRun struct {
+	g       *graph.WeightedAuthorizationModelGraph
 	st      *wgStructure
 	cn      map[string]string
 	outcome *wgOutcome
@@ -397,6 +398,7 @@ func buildWGWith(model *openfgav1.AuthorizationModel, forced []string, shared bo
 	if run.cn == nil {
 		run.cn = map[string]string{}
 	}
+	run.g = g
 	run.outcome = outcomeOf(g, err, run.cn, panicked)
 	run.outcome.Events = run.events
 	if forced != nil {
@@ -737,6 +739,19 @@ func wgReplay(args []string) error {
 				}
 			}
 			record(run.outcome)
+		}
+		// AssignWeights is an exported method: called once more on a graph Build has accepted it finds everything weighted and
+		// leaves it so (weights, wildcards of nodes and edges)
+		if again := buildWG(model, nil); again.g != nil && again.outcome.Result == "ok" {
+			var err2 error
+			var p2 any
+			func() {
+				defer func() { p2 = recover() }()
+				err2 = again.g.AssignWeights()
+			}()
+			o2 := outcomeOf(again.g, err2, again.cn, p2)
+			o2.Roots = append([]string{}, again.outcome.Roots...)
+			record(o2)
 		}
 		// the same model with every type called R<name> (names are the users': a type may well begin with the letters of the
 		// placeholder prefix "R#"): the outcome is the same up to the renaming
